@@ -559,6 +559,22 @@ func VerifC14_Delayed() {
 	verifAssume(goneOid != localOid && goneOid != remoteOid[0] && goneOid != remoteOid[1])
 	gonePtr := lfs.NewPointer(goneOid, int64(len(gone)), nil).Encoded()
 
+	// smudging switched off: for every path (--skip / GIT_LFS_SKIP_SMUDGE) or
+	// for the paths lfs.fetchexclude names; the one-shot filter then leaves the
+	// pointer as it is, whether or not the object is in local storage
+	policy := verifChoose("smudge.policy", 3)
+	if policy == 1 {
+		filterSmudgeSkip = true
+	} else if policy == 2 {
+		cfg = &config.Configuration{
+			Git: config.EnvironmentOf(config.MapFetcher(map[string][]string{"lfs.skipdownloaderrors": {"true"}, "lfs.fetchexclude": {"*.dat"}})),
+			Os:  config.EnvironmentOf(config.MapFetcher(map[string][]string{})),
+		}
+	}
+	off := func(path string) bool {
+		return policy == 1 || policy == 2 && strings.HasSuffix(path, ".dat")
+	}
+
 	verifGit = &verifGitSim{}
 	type exp struct {
 		delayed bool
@@ -566,6 +582,9 @@ func VerifC14_Delayed() {
 	}
 	expect := map[string]exp{}
 	paths := []string{"a.bin", "dir/b c.bin", "c.dat", "d.bin"}
+	if verifChoose("path.order", 2) == 1 {
+		paths = []string{"c.dat", "a.bin", "e.dat", "dir/b c.bin"}
+	}
 	npath := 0
 	fetched := map[string]bool{} // objects an earlier checkout of this process downloaded
 	mkRound := func(n int) []verifReq {
@@ -579,12 +598,21 @@ func VerifC14_Delayed() {
 				j := verifChoose("remote.object", 2)
 				ptr := lfs.NewPointer(remoteOid[j], int64(len(remote[j])), nil).Encoded()
 				round = append(round, verifReq{cmd: "smudge", path: path, canDelay: true, payload: ptr, chunks: []string{ptr}})
-				expect[path] = exp{!fetched[remoteOid[j]], remote[j]}
-				asked = append(asked, remoteOid[j])
+				if off(path) {
+					verifCover("smudge-off")
+					expect[path] = exp{false, ptr}
+				} else {
+					expect[path] = exp{!fetched[remoteOid[j]], remote[j]}
+					asked = append(asked, remoteOid[j])
+				}
 			case 1: // an object that is local: delivered at once
 				ptr := lfs.NewPointer(localOid, int64(len(local)), nil).Encoded()
 				round = append(round, verifReq{cmd: "smudge", path: path, canDelay: true, payload: ptr, chunks: []string{ptr}})
 				expect[path] = exp{false, local}
+				if off(path) {
+					verifCover("smudge-off-local")
+					expect[path] = exp{false, ptr}
+				}
 			case 2: // no pointer at all
 				raw := verifShort("raw.content")
 				round = append(round, verifReq{cmd: "smudge", path: path, canDelay: true, payload: raw, chunks: []string{raw}})
@@ -592,7 +620,7 @@ func VerifC14_Delayed() {
 			case 3: // an object nobody has: delayed, the download fails, and (with
 				// lfs.skipdownloaderrors) the file stays a pointer, as with the one-shot filter
 				round = append(round, verifReq{cmd: "smudge", path: path, canDelay: true, payload: gonePtr, chunks: []string{gonePtr}})
-				expect[path] = exp{true, gonePtr}
+				expect[path] = exp{!off(path), gonePtr}
 			}
 		}
 		for _, o := range asked {
